@@ -53,7 +53,7 @@ func unlockKey(pk types.PublicKey) types.UnlockKey {
 // lockHeight/lockTime: a height / time that has already passed (locks are
 // generated satisfied-or-soon-satisfied by the caller's choice).
 func (w *Wallet) NewRecipe(v2ok bool, curHeight uint64, curTime time.Time) *Recipe {
-	kinds := []string{"uc1", "uc1", "uc2of3", "uclock", "uc0"}
+	kinds := []string{"uc1", "uc1", "uc2of3", "uclock", "uc0", "uc2of70"}
 	if v2ok {
 		kinds = append(kinds, "pk", "pk", "thresh", "above", "after", "hash")
 	}
@@ -93,6 +93,21 @@ func (w *Wallet) NewRecipeKind(kind string, curHeight uint64, curTime time.Time)
 		if w.rng.Intn(2) == 0 {
 			a, b = 1, 2
 		}
+		r.Keys = []types.PrivateKey{ks[a], ks[b]}
+		r.UCKeyIdx = []uint64{uint64(a), uint64(b)}
+	case "uc2of70":
+		// a wide multisig: the two signers sit at key indices beyond 63 (bookkeeping per key index must not be 64 bits wide)
+		uc := types.UnlockConditions{SignaturesRequired: 2}
+		ks := make([]types.PrivateKey, 70)
+		for i := range ks {
+			seed := make([]byte, 32)
+			w.rng.Read(seed)
+			ks[i] = types.NewPrivateKeyFromSeed(seed)
+			uc.PublicKeys = append(uc.PublicKeys, unlockKey(ks[i].PublicKey()))
+		}
+		a := 64 + w.rng.Intn(3)
+		b := a + 1 + w.rng.Intn(69-a)
+		r.UC = &uc
 		r.Keys = []types.PrivateKey{ks[a], ks[b]}
 		r.UCKeyIdx = []uint64{uint64(a), uint64(b)}
 	case "pk":
